@@ -75,6 +75,32 @@ class Step(object):
         self.in_switch = 0
         self.oracle, self.oracle_pos = [], 0
         self.resolving = set()
+        self.fields = {}          # (struct local decl, field name) -> value: scanner state kept in a struct, shared with helpers
+
+    def field_key(self, n):
+        """(struct local decl, field) if n is S.f for a struct local S, or P->f for a pointer value that is the address of one"""
+        n = X.strip(n)
+        if n is None or n.get("k") != "member":
+            return None
+        b = X.strip(n["ch"][0])
+        if b is None:
+            return None
+        if not n.get("arrow"):
+            if b.get("k") == "ref" and b.get("rk") == "local":
+                return (b["d"], n.get("n"))
+            return None
+        if b.get("k") == "ref" and b.get("d") in self.env and self.env[b["d"]][0] == "sref":
+            return (self.env[b["d"]][1], n.get("n"))
+        return None
+
+    def state_get(self, key):
+        return self.fields.get(key) if isinstance(key, tuple) else self.env.get(key)
+
+    def state_set(self, key, v):
+        if isinstance(key, tuple):
+            self.fields[key] = v
+        else:
+            self.env[key] = v
 
     # ---- values
     def truth(self, v):
@@ -147,6 +173,9 @@ class Step(object):
                     return v
             raise Undecided("value of %s" % n.get("n"))
         if k == "member":
+            fk = self.field_key(n)
+            if fk is not None and fk in self.fields:
+                return self.fields[fk]
             nm = n.get("n")
             if (n.get("rec"), nm) in self.consts:
                 return ("ch", LITERAL.get(self.consts[n.get("rec"), nm], "OTHER"))
@@ -164,8 +193,21 @@ class Step(object):
                 if p[0] == "ptr":
                     return self.at(p[1])
                 raise Undecided("read through %r" % (p,))
+            if op == "&":
+                t = X.strip(n["ch"][0])
+                if t is not None and t.get("k") == "ref" and t.get("rk") == "local" and not t.get("tp") and not t.get("tw"):
+                    return ("sref", t["d"])          # the address of a struct local (scanner state handed to a helper)
+                raise Undecided("address of %s" % X.render(t)[:20])
             if op in ("++", "--"):
                 t = X.strip(n["ch"][0])
+                fk = self.field_key(t) if t is not None and t.get("k") == "member" else None
+                if fk is not None and fk in self.fields and self.fields[fk][0] == "ptr":
+                    old = self.fields[fk]
+                    new = ("ptr", old[1] + (1 if op == "++" else -1))
+                    self.fields[fk] = new
+                    return old if n.get("post") else new
+                if fk is not None and t.get("tp"):
+                    return ("dst",)
                 if t.get("k") == "ref" and t.get("d") in self.env and self.env[t["d"]][0] == "ptr":
                     old = self.env[t["d"]]
                     new = ("ptr", old[1] + (1 if op == "++" else -1))
@@ -232,6 +274,18 @@ class Step(object):
         if k == "assign":
             t = X.strip(n["ch"][0])
             op = n.get("op")
+            fk = self.field_key(t) if t is not None and t.get("k") == "member" else None
+            if fk is not None and (fk in self.fields or not t.get("tp")):
+                if op == "=":
+                    v = self.ev(n["ch"][1])
+                    self.fields[fk] = v
+                    return v
+                if op in ("+=", "-=") and fk in self.fields and self.fields[fk][0] == "ptr":
+                    v = self.ev(n["ch"][1])
+                    if v[0] != "int":
+                        raise Undecided("cursor moved by a non-constant")
+                    self.fields[fk] = ("ptr", self.fields[fk][1] + (v[1] if op == "+=" else -v[1]))
+                    return self.fields[fk]
             if t.get("k") == "ref" and not t.get("tp") and op == "=":
                 v = self.ev(n["ch"][1])
                 self.env[t["d"]] = v
@@ -413,7 +467,10 @@ class Step(object):
 
     def _run_once(self, loop, cur, nxt, quote):
         self.cur, self.nxt = cur, nxt
-        self.env = {self.cursor: ("ptr", 0), self.quote: ("ch", quote)}
+        self.env = {}
+        self.fields = {}
+        self.state_set(self.cursor, ("ptr", 0))
+        self.state_set(self.quote, ("ch", quote))
         self.emits = []
         self.depth = 0
         self.in_switch = 0
@@ -429,8 +486,10 @@ class Step(object):
             return "END"
         if loop.get("inc") is not None:
             self.ev(loop["inc"])
-        adv = self.env[self.cursor]
-        q = self.env[self.quote]
+        adv = self.state_get(self.cursor)
+        q = self.state_get(self.quote)
+        if adv is None or q is None:
+            raise Undecided("cursor/quote after the step")
         if adv[0] != "ptr" or q[0] not in ("ch", "int"):
             raise Undecided("cursor/quote after the step")
         qv = q[1] if q[0] == "ch" else ("NUL" if q[1] == 0 else "OTHER")
@@ -439,7 +498,10 @@ class Step(object):
     def continues(self, loop, cur, quote):
         """does the loop condition let a token continue at character class cur (NUL included) with this quote state"""
         self.cur, self.nxt = cur, None
-        self.env = {self.cursor: ("ptr", 0), self.quote: ("ch", quote)}
+        self.env = {}
+        self.fields = {}
+        self.state_set(self.cursor, ("ptr", 0))
+        self.state_set(self.quote, ("ch", quote))
         self.emits = []
         return self.truth(self.ev(loop["cond"]))
 
@@ -449,6 +511,7 @@ def find_token_loop(fn):
     the copying of one token to: returns (loop, cursor decl, quote decl, owning function)"""
     from .facts import walk
     from .listrules import unit_closure
+    found = []
     for g in unit_closure(fn):
         if g.body is None:
             continue
@@ -463,6 +526,10 @@ def find_token_loop(fn):
                     t = X.strip(x["ch"][0])
                     if t.get("k") == "ref" and t.get("rk") in ("local", "param") and cur_d is None:
                         cur_d = t["d"]
+                    if t.get("k") == "member" and not t.get("arrow") and cur_d is None:
+                        b_ = X.strip(t["ch"][0])
+                        if b_ is not None and b_.get("k") == "ref" and b_.get("rk") == "local":
+                            cur_d = (b_["d"], t["n"])        # the cursor is a field of a struct local (scanner state)
                 if x.get("k") == "index" and cur_d is None:
                     t = X.strip(x["ch"][1])
                     if t.get("k") == "ref" and t.get("rk") in ("local", "param") and not t.get("tp"):
@@ -471,15 +538,31 @@ def find_token_loop(fn):
                 continue
             # the quote state: a small local that the loop both resets to 0 and sets from the current character
             zeroed, set_ = set(), set()
-            for y in walk(lp["body"]):
-                if y.get("k") == "assign" and y.get("op") == "=":
-                    t = X.strip(y["ch"][0])
-                    if t.get("k") == "ref" and t.get("rk") == "local" and not t.get("tp") and (t.get("tw") or 0) <= 32 and t.get("d") != cur_d:
-                        if X.const_val(y["ch"][1]) == 0:
-                            zeroed.add(t["d"])
-                        else:
-                            set_.add(t["d"])
-            cand = sorted(zeroed & set_)
+            bodies = [lp["body"]]
+            if isinstance(cur_d, tuple):
+                # the state struct is handed to unit-local helpers by address: their bodies belong to the step
+                for c_ in X.calls_in(lp["body"]):
+                    h_ = g.unit.functions.get(X.callee_name(c_) or "")
+                    if h_ is not None and h_.body is not None and any(
+                            (X.strip(a_) or {}).get("k") == "un" and X.strip(a_).get("op") == "&" and (X.strip(X.strip(a_)["ch"][0]) or {}).get("d") == cur_d[0]
+                            for a_ in c_["ch"][1:]):
+                        bodies.append(h_.body)
+            for body_ in bodies:
+                for y in walk(body_):
+                    if y.get("k") == "assign" and y.get("op") == "=":
+                        t = X.strip(y["ch"][0])
+                        if t.get("k") == "ref" and t.get("rk") == "local" and not t.get("tp") and (t.get("tw") or 0) <= 32 and t.get("d") != cur_d:
+                            if X.const_val(y["ch"][1]) == 0:
+                                zeroed.add(t["d"])
+                            else:
+                                set_.add(t["d"])
+                        if isinstance(cur_d, tuple) and t.get("k") == "member" and not t.get("tp") and (t.get("tw") or 0) <= 32 and t.get("n") != cur_d[1]:
+                            key_ = (cur_d[0], t["n"])
+                            if X.const_val(y["ch"][1]) == 0:
+                                zeroed.add(key_)
+                            else:
+                                set_.add(key_)
+            cand = sorted(zeroed & set_, key=str)
             if not cand:
                 continue
             # an inner loop of the token loop would be found first by the walk only if it has these too; prefer the innermost
@@ -487,7 +570,12 @@ def find_token_loop(fn):
             inner = [z for z in walk(lp["body"]) if z.get("k") in ("for", "while") and z is not lp]
             if any(True for z in inner if any(y.get("k") == "assign" and X.strip(y["ch"][0]).get("d") == quote_d for y in walk(z.get("body") or {}))):
                 continue        # the toggling happens in a nested loop: that one is the character loop
-            return lp, cur_d, quote_d, g
+            found.append((lp, cur_d, quote_d, g))
+    # the character loop is the innermost candidate (with the state in a struct the toggling sits in a helper, so an enclosing
+    # per-token loop qualifies as well)
+    for cand_ in found:
+        if not any(o_ is not cand_ and o_[3] is cand_[3] and any(y is o_[0] for y in walk(cand_[0].get("body") or {})) for o_ in found):
+            return cand_
     return None
 
 
